@@ -76,8 +76,10 @@ def oracle(ctx):
             pass
     trees = [gen_tree(ctx) for _ in range(250 if ctx.thorough else 60)]
 
-    both = e2e.run_pair
-    for files, (d, n) in zip(trees, e2e.pmap(both, trees)):
+    # every other normal run goes into an output directory that already holds longer files of the same names
+    stale = [i % 2 == 1 for i in range(len(trees))]
+    both = lambda ts: e2e.run_pair(ts[0], stale=ts[1])
+    for files, (d, n) in zip(trees, e2e.pmap(both, list(zip(trees, stale)))):
         res.oracle_evals += 1
         fails = []
         if d['before'] != d['after']:
